@@ -229,6 +229,22 @@ class _History:
 
     def new_mpo(self):
         rng = self.rng
+        if rng.random() < 0.1:
+            # stand-alone object: an operator of charge +1 (sum_i c_i Z..Z a^dagger_i 1..1) from an automaton whose *start* terminal is charged
+            from pytenet.autop import AutOp, AutOpNode, AutOpEdge
+            from pytenet.opgraph import OpGraph
+            Lz = max(1, self.L)
+            cs = [float(x) for x in rng.uniform(0.5, 1.5, Lz)]
+            aut = AutOp([AutOpNode(0, [], [], -1), AutOpNode(1, [], [], 0)], [], [0, 1])
+            aut.add_connect_edge(AutOpEdge(0, [0, 0], [(1, 1.0)]))
+            aut.add_connect_edge(AutOpEdge(1, [0, 1], lambda i, cs=cs: [(2, cs[i])]))
+            aut.add_connect_edge(AutOpEdge(2, [1, 1], [(0, 1.0)]))
+            opm = {0: np.identity(2), 1: np.diag([1.0, -1.0]), 2: np.array([[0.0, 0.0], [1.0, 0.0]])}
+            gz = self.call('OpGraph.from_automaton', (), OpGraph.from_automaton, aut, Lz)
+            xz = self.call('MPO.from_opgraph', (), ptn.MPO.from_opgraph, [0, 1], gz, opm)
+            badz = oracle.wf_mpo(xz)
+            if badz or [int(q) for q in xz.qD[0]] != [-1] or [int(q) for q in xz.qD[-1]] != [0]:
+                self.fail('MPO.from_opgraph', 'wf', f'MPO of a charged automaton (start terminal charge -1, L={Lz}): leading labels {xz.qD[0]}, trailing {xz.qD[-1]}; ' + '; '.join(badz[:3]), ())
         r = rng.random()
         if self.model != 'u1' and r < 0.55:
             name, x = None, None
